@@ -87,3 +87,5 @@ def correspond(seed, tier):
 
 TRUSTED = ["lean/PystogVerif/Model/Stog.lean is a hand-written model of StoG.add_dataset (modelled, not verified): tied to /repo only "
            "by the step-by-step correspondence run (bit-exact so far)"]
+
+DRIVERS = ["drvm"]
